@@ -146,6 +146,7 @@ def _wiring(prog, res):
   res.analysed(fin)
   wiring.check_exact_store(prog, res, fin, 'kernel', '_final_constraints')
   res.floor('R1', 1)
+  res.floor('R2', 1)
   # __call__ -> dykstra / finalize
   callm = lc.methods['__call__']
   res.analysed(callm)
